@@ -27,6 +27,25 @@ def optsOfCfg (bits : Nat) : EncOpts :=
     validateString := b "ValidateString", noValidateJSONMarshaler := b "NoValidateJSONMarshaler",
     noEncoderNewline := b "NoEncoderNewline", encodeNullForInfOrNan := b "EncodeNullForInfOrNan" }
 
+/-- linear-time tokenizer for the s-expression wire syntax (`Go.tokenize` rebuilds the pending atom at
+    every character, which is quadratic on the long hex atoms of the string streams) -/
+def tokenizeFast (s : String) : List String :=
+  let rec go (cs : List Char) (cur : List Char) (acc : List String) : List String :=
+    match cs with
+    | [] => (if cur.isEmpty then acc else String.ofList cur.reverse :: acc).reverse
+    | c :: r =>
+      if c == ' ' then go r [] (if cur.isEmpty then acc else String.ofList cur.reverse :: acc)
+      else if c == '(' then go r [] ("(" :: (if cur.isEmpty then acc else String.ofList cur.reverse :: acc))
+      else if c == ')' then go r [] (")" :: (if cur.isEmpty then acc else String.ofList cur.reverse :: acc))
+      else go r (c :: cur) acc
+  go s.toList [] []
+
+def parseSxFast (s : String) : Option Sx :=
+  let toks := tokenizeFast s
+  match parseSxFuel (toks.length + 1) toks with
+  | some (x, []) => some x
+  | _ => none
+
 def errName : EErr → String
   | .unsupportedType => "unsupported_type"
   | .unsupportedValue => "unsupported_value"
@@ -49,8 +68,8 @@ def rel (ordered : Bool) (a b : Option Bytes) : String :=
 
 def handleMar (cfg T V : String) (rest : List String) : Option String := do
   let bits ← cfg.toNat?
-  let t ← parseType T
-  let v0 ← parseVal V
+  let t ← (parseSxFast T).bind typeOfSx
+  let v0 ← (parseSxFast V).bind valOfSx
   let o := optsOfCfg bits
   let out := field rest "out"
   let rout := field rest "rout"
